@@ -151,6 +151,47 @@ func RunEnvStubs(repo *Repo) map[string]exec.Stub {
 		return exec.Tuple{ex.C.IntC(0), exec.Iface{}}
 	}
 	st["fmt.Printf"] = st["fmt.Println"]
+	// printing a value that carries the generated source to stdout is a stdout write that can fail
+	st["fmt.Print"] = func(ex *exec.Exec, c *exec.CallInfo) exec.Value {
+		carries := false
+		for _, a := range ex.SliceElems(c.Args[0]) {
+			if iv, ok := a.(exec.Iface); ok {
+				if t, ok := iv.V.(*smt.Term); ok && t == ex.User["mockOutput"] {
+					carries = true
+				}
+				if b, ok := iv.V.(exec.Bytes); ok && b.S == ex.User["mockOutput"] {
+					carries = true
+				}
+			}
+		}
+		if !carries {
+			ex.Emit("StdWrite", "stdout-text", nil)
+			return exec.Tuple{ex.C.IntC(0), exec.Iface{}}
+		}
+		ex.Emit("StdWrite", "stdout", exec.Bytes{S: ex.User["mockOutput"].(*smt.Term)})
+		if fault(ex, "stdout_write") {
+			return exec.Tuple{ex.C.IntC(0), ex.NewError(ex.C.StrC("write failed"), "write")}
+		}
+		return exec.Tuple{ex.C.IntC(0), exec.Iface{}}
+	}
+	st["(*bytes.Buffer).String"] = func(ex *exec.Exec, c *exec.CallInfo) exec.Value {
+		if b, ok := bufContent(ex, c.Args[0]).(exec.Bytes); ok {
+			return b.S
+		}
+		return ex.C.StrC("")
+	}
+	st["(*os.File).Write"] = func(ex *exec.Exec, c *exec.CallInfo) exec.Value {
+		name := "?"
+		if f, ok := c.Args[0].(*FileObj); ok {
+			name = f.Name
+		}
+		ex.Emit("StdWrite", name, c.Args[1])
+		if fault(ex, "stdout_write") {
+			return exec.Tuple{ex.C.IntC(0), ex.NewError(ex.C.StrC("write failed"), "write")}
+		}
+		return exec.Tuple{ex.C.IntC(0), exec.Iface{}}
+	}
+	st["(*os.File).WriteString"] = st["(*os.File).Write"]
 	st["fmt.Fprintln"] = func(ex *exec.Exec, c *exec.CallInfo) exec.Value {
 		w := c.Args[0].(exec.Iface)
 		name := "?"
